@@ -119,7 +119,11 @@ func (rl *TokenBucketRateLimiter) cleanup() {
 		b := value.(*bucket)
 
 		b.mutex.Lock()
-		shouldDelete := b.lastRefill.Before(cutoff)
+		// Only forget a bucket that would be full again anyway: a new bucket
+		// starts full, so dropping a partly drained one would hand the client
+		// tokens it has not earned yet (matters for refill periods of minutes).
+		refilled := b.tokens + int(now.Sub(b.lastRefill)/rl.refillRate)
+		shouldDelete := b.lastRefill.Before(cutoff) && refilled >= rl.maxTokens
 		b.mutex.Unlock()
 
 		if shouldDelete {
